@@ -634,12 +634,14 @@ class Adversary(Scheduling):
     finite menu computed from the live cluster state.  Its only power is the
     schedule it returns (what the properties mean by "proposes")."""
 
-    def __init__(self, inner, probe, budget=1):
+    def __init__(self, inner, probe, budget=1, api=False):
         super().__init__()
         self.inner = inner
         self.probe = probe
         self.budget = budget
         self.used = 0
+        self.api = api            # may also call the documented cluster API
+        self.api_used = 0
         self.name = "Adversary(%r)" % (inner,)
         self.injected = []
 
@@ -695,6 +697,20 @@ class Adversary(Scheduling):
 
     def run(self, cluster, clock, workflow_plan, existing_schedule,
             task_pool):
+        if self.api and self.api_used < 1 and workflow_plan.tasks:
+            # an "elastic" user algorithm: ask the cluster for (more)
+            # reserved machines for this workflow, as the Cluster docs allow
+            free = len(cluster.get_available_resources())
+            if free >= 1:
+                k = self.probe.chooser.choose("api", 3, "provision")
+                if k:
+                    self.api_used += 1
+                    cluster.provision_batch_resources(min(k, free),
+                                                      workflow_plan.id)
+                    self.injected.append(
+                        {"t": clock, "task": None, "machine": None,
+                         "label": "api:provision-%d" % min(k, free),
+                         "plan": workflow_plan.id})
         allocs, status, task_pool = self.inner.run(
             cluster, clock, workflow_plan, existing_schedule, task_pool)
         if self.used < self.budget:
@@ -753,7 +769,8 @@ def make_algorithms(case, probe):
     else:
         raise HarnessError("unknown algorithm kind %r" % kind)
     if kind.startswith("adv"):
-        sched = Adversary(inner, probe, alg.get("budget", 1))
+        sched = Adversary(inner, probe, alg.get("budget", 1),
+                          alg.get("api", False))
         probe.adversary = sched
     else:
         sched = LoggedAlgorithm(inner, probe)
